@@ -1,5 +1,325 @@
 import SradModel.Model.EonSpec
-
+set_option linter.unusedSimpArgs false
 namespace Srad.Eon.P02
+open Srad.Eon
 
+def Minor : Obs → Bool
+  | .call .. | .will _ | .poll | .polled _ => false
+  | _ => true
+
+theorem nextSeqIn_ok {s s1 : St} {req n} (h : nextSeqIn s req = .ok (s1, n)) :
+    s.online = true ∧ s.birthed = true ∧ n = (s.seq + 1) % 256 ∧ s1 = { s with seq := (s.seq + 1) % 256 } := by
+  unfold nextSeqIn at h
+  repeat' (split at h)
+  all_goals first | contradiction | (cases h; simp_all)
+
+def PubEff (s s' : St) (o : List Obs) : Prop :=
+  (s'.seq = s.seq ∧ (∀ x ∈ o, Minor x = true)) ∨
+  (s.online = true ∧ s.birthed = true ∧ s'.seq = (s.seq+1)%256 ∧
+    ∃ pre post id k dv it dc, o = pre ++ .call id k dv (some s'.seq) none it dc :: post ∧ k.bearsSeq = true ∧ (∀ x ∈ pre, Minor x = true) ∧ (∀ x ∈ post, Minor x = true))
+
+theorem devBirth_eff (s : St) (x : Dev) (bt req dec) :
+    (∃ q c d, (devBirth s x bt req dec).1 = { s with seq := q, calls := c, devs := d }) ∧
+    PubEff s (devBirth s x bt req dec).1 (devBirth s x bt req dec).2 := by
+  unfold devBirth
+  split
+  · exact ⟨⟨_, _, _, rfl⟩, .inl (by simp)⟩
+  split
+  · exact ⟨⟨_, _, _, rfl⟩, .inl (by simp)⟩
+  split
+  · exact ⟨⟨_, _, _, rfl⟩, .inl (by simp)⟩
+  · rename_i s1 n h
+    obtain ⟨h1, h2, rfl, rfl⟩ := nextSeqIn_ok h
+    simp only [handOver, callRes]
+    split
+    · exact ⟨⟨_, _, _, rfl⟩, .inr ⟨h1, h2, rfl, [.bDev x.name], [], _, _, _, _, _, rfl, rfl, by simp [Minor], by simp⟩⟩
+    · exact ⟨⟨_, _, _, rfl⟩, .inr ⟨h1, h2, rfl, [.bDev x.name], [], _, _, _, _, _, rfl, rfl, by simp [Minor], by simp⟩⟩
+
+theorem devDeath_eff (s : St) (x : Dev) (pub td dec) :
+    (∃ q c d, (devDeath s x pub td dec).1 = { s with seq := q, calls := c, devs := d }) ∧
+    PubEff s (devDeath s x pub td dec).1 (devDeath s x pub td dec).2 := by
+  unfold devDeath
+  generalize (if td = true then DevPc.done else DevPc.idle) = fin
+  simp only []
+  split
+  · exact ⟨⟨_, _, _, rfl⟩, .inl (by simp)⟩
+  split
+  · exact ⟨⟨_, _, _, rfl⟩, .inl (by simp)⟩
+  split
+  · exact ⟨⟨_, _, _, rfl⟩, .inl (by simp)⟩
+  · rename_i s1 n h
+    obtain ⟨h1, h2, rfl, rfl⟩ := nextSeqIn_ok h
+    simp only [handOver, callRes]
+    split
+    · exact ⟨⟨_, _, _, rfl⟩, .inr ⟨h1, h2, rfl, [], [], _, _, _, _, _, rfl, rfl, by simp [Minor], by simp⟩⟩
+    · exact ⟨⟨_, _, _, rfl⟩, .inr ⟨h1, h2, rfl, [], [], _, _, _, _, _, rfl, rfl, by simp [Minor], by simp⟩⟩
+
+def DevFrame (s s' : St) : Prop := ∃ q c d, s' = { s with seq := q, calls := c, devs := d }
+
+theorem devBirth_eff' (s : St) (d0) (x : Dev) (bt req dec) :
+    DevFrame s (devBirth { s with devs := d0 } x bt req dec).1 ∧
+    PubEff s (devBirth { s with devs := d0 } x bt req dec).1 (devBirth { s with devs := d0 } x bt req dec).2 := by
+  obtain ⟨⟨q, c, d, h⟩, h2⟩ := devBirth_eff { s with devs := d0 } x bt req dec
+  exact ⟨⟨q, c, d, h⟩, h2⟩
+
+theorem devDeath_eff' (s : St) (d0) (x : Dev) (pub td dec) :
+    DevFrame s (devDeath { s with devs := d0 } x pub td dec).1 ∧
+    PubEff s (devDeath { s with devs := d0 } x pub td dec).1 (devDeath { s with devs := d0 } x pub td dec).2 := by
+  obtain ⟨⟨q, c, d, h⟩, h2⟩ := devDeath_eff { s with devs := d0 } x pub td dec
+  exact ⟨⟨q, c, d, h⟩, h2⟩
+
+theorem stepDev_eff {s : St} {u dec} {r : St × List Obs} (h : r ∈ stepDev s u dec) :
+    DevFrame s r.1 ∧ PubEff s r.1 r.2 := by
+  unfold stepDev at h
+  repeat' (split at h)
+  all_goals simp only [List.mem_singleton, List.not_mem_nil] at h
+  all_goals subst h
+  all_goals first
+    | exact devBirth_eff' ..
+    | exact devDeath_eff' ..
+    | exact ⟨⟨_, _, _, rfl⟩, .inl ⟨rfl, by simp [Minor]⟩⟩
+
+/-- what a user step can do; `u` is the call record it advances to pc `p` -/
+def UserEff (s s' : St) (o : List Obs) (u : UCall) (p : UPc) : Prop :=
+  ((∃ q c, s' = { s with seq := q, calls := c, ucalls := setUCall { u with pc := p } s.ucalls }) ∧
+      PubEff s s' o ∧ p ≠ .cancelStop) ∨
+  (s.running = true ∧ p = .cancelStop ∧
+      (∃ c, s' = { s with stopping := true, calls := c, ucalls := setUCall { u with pc := p } s.ucalls }) ∧
+      ∃ id dc, o = [.call id .ndeath none none (some s.bdseq) true dc]) ∨
+  (u.pc = .cancelStop ∧ p = .cancelDisc ∧ o = [] ∧
+      (s' = { s with ucalls := setUCall { u with pc := p } s.ucalls } ∨
+       s' = { s with stop := true, ucalls := setUCall { u with pc := p } s.ucalls })) ∨
+  (p = .done ∧ (∃ c, s' = { s with calls := c, ucalls := setUCall { u with pc := p } s.ucalls }) ∧
+      ∃ id dc j r, o = [.call id .disconnect none none none true dc, .ures j r])
+
+theorem map_nextSeqIn_ok {s : St} {req} {f : Bool} {s1 k fl}
+    (h : Except.map (fun x : St × Nat => (x.fst, x.snd, f)) (nextSeqIn s req) = .ok (s1, k, fl)) :
+    nextSeqIn s req = .ok (s1, k) := by
+  cases hn : nextSeqIn s req with
+  | error e => simp [hn, Except.map] at h
+  | ok v => simp [hn, Except.map] at h; obtain ⟨rfl, rfl, _⟩ := h; rfl
+
+theorem stepUser_eff {s : St} {j dec} {r : St × List Obs} (h : r ∈ stepUser s j dec) :
+    ∃ u ∈ s.ucalls, ∃ p, UserEff s r.1 r.2 u p := by
+  unfold stepUser at h
+  split at h
+  · simp at h
+  rename_i u hu
+  refine ⟨u, List.mem_of_find?_eq_some hu, ?_⟩
+  simp only [] at h
+  split at h
+  · -- pub, start
+    rename_i t isTry n hkind hpc
+    split at h
+    · simp only [List.mem_singleton] at h; subst h
+      exact ⟨_, .inl ⟨⟨_, _, rfl⟩, .inl ⟨rfl, by simp [Minor]⟩, by simp⟩⟩
+    split at h
+    · simp only [List.mem_singleton] at h; subst h
+      exact ⟨_, .inl ⟨⟨_, _, rfl⟩, .inl ⟨rfl, by simp [Minor]⟩, by simp⟩⟩
+    · rename_i s1 k fl hg
+      have hk : nextSeqIn s none = .ok (s1, k) ∨ ∃ e, nextSeqIn s (some e) = .ok (s1, k) := by
+        repeat' (split at hg)
+        · exact .inl (map_nextSeqIn_ok hg)
+        · cases hg
+        · exact .inr ⟨_, map_nextSeqIn_ok hg⟩
+        · cases hg
+      have hk' : s.online = true ∧ s.birthed = true ∧ k = (s.seq + 1) % 256 ∧ s1 = { s with seq := (s.seq + 1) % 256 } := by
+        rcases hk with hk | ⟨e, hk⟩ <;> exact nextSeqIn_ok hk
+      obtain ⟨h1, h2, rfl, rfl⟩ := hk'
+      clear hk hg
+      cases t <;> simp only [handOver, callRes] at h <;> split at h <;>
+        simp only [List.mem_singleton] at h <;> subst h
+      all_goals first
+        | exact ⟨_, .inl ⟨⟨_, _, rfl⟩, .inr ⟨h1, h2, rfl, [], [.ures _ _], _, _, _, _, _, rfl, rfl, by simp, by simp [Minor]⟩, by simp⟩⟩
+        | exact ⟨_, .inl ⟨⟨_, _, rfl⟩, .inr ⟨h1, h2, rfl, [], [], _, _, _, _, _, rfl, rfl, by simp, by simp⟩, by simp⟩⟩
+  · -- pub, wait
+    split at h <;> simp only [List.mem_singleton, List.not_mem_nil] at h <;> subst h <;>
+      exact ⟨_, .inl ⟨⟨_, _, rfl⟩, .inl ⟨rfl, by simp [Minor]⟩, by simp⟩⟩
+  · -- cancel, start
+    split at h
+    · simp only [List.mem_singleton] at h; subst h
+      exact ⟨_, .inl ⟨⟨_, _, rfl⟩, .inl ⟨rfl, by simp [Minor]⟩, by simp⟩⟩
+    · rename_i hr
+      simp only [handOver, List.mem_singleton] at h; subst h
+      exact ⟨_, .inr (.inl ⟨by simpa using hr, rfl, ⟨_, rfl⟩, _, _, rfl⟩)⟩
+  · -- cancel, cancelStop
+    rename_i hpc
+    repeat' (split at h)
+    all_goals simp only [List.mem_singleton, List.not_mem_nil] at h
+    all_goals subst h
+    · exact ⟨_, .inr (.inr (.inl ⟨hpc, rfl, rfl, .inl rfl⟩))⟩
+    · exact ⟨_, .inr (.inr (.inl ⟨hpc, rfl, rfl, .inr rfl⟩))⟩
+  · -- cancel, cancelDisc
+    simp only [handOver, List.mem_singleton] at h; subst h
+    exact ⟨_, .inr (.inr (.inr ⟨rfl, ⟨_, rfl⟩, _, _, _, _, rfl⟩))⟩
+  · simp at h
+
+def StimFrame (s s' : St) : Prop :=
+  ∃ ib dv rq cl wl np dp, s' = { s with inbox := ib, devs := dv, rebirthQ := rq, calls := cl, wall := wl, nodeCbPark := np, devCbPark := dp }
+
+theorem applyStim_eff (s : St) (x : Stim) :
+    (StimFrame s (applyStim s x).1 ∨
+      ∃ u : UCall, u.pc = .start ∧ (applyStim s x).1 = { s with ucalls := s.ucalls ++ [u] }) ∧
+    ∀ y ∈ (applyStim s x).2, Minor y = true := by
+  unfold applyStim
+  repeat' split
+  all_goals first
+    | exact ⟨.inl ⟨_, _, _, _, _, _, _, rfl⟩, by simp [Minor]⟩
+    | exact ⟨.inr ⟨_, rfl, rfl⟩, by simp [Minor]⟩
+
+def isCall : Obs → Bool
+  | .call .. => true
+  | _ => false
+
+def LoopFrame (s s' : St) : Prop :=
+  ∃ rn wl lp st sd ib cs mq dv no, s' = { s with running := rn, will := wl, loop := lp, stop := st, stopDeadline := sd, inbox := ib, cs := cs, msgQ := mq, devs := dv, nextOneshot := no }
+
+theorem stepLoop_frame {s : St} {r : St × List Obs} (h : r ∈ stepLoop s) :
+    LoopFrame s r.1 ∧ ∀ y ∈ r.2, isCall y = false := by
+  unfold stepLoop at h
+  simp only [loopHandle, newOneshot] at h
+  repeat' (split at h)
+  all_goals simp only [List.mem_append, List.mem_singleton, List.mem_cons, List.not_mem_nil, or_false, false_or] at h
+  all_goals first | subst h | (rcases h with h | h <;> subst h)
+  all_goals exact ⟨⟨_, _, _, _, _, _, _, _, _, _, rfl⟩, by simp [isCall]⟩
+
+theorem stepLoopTimeout_frame {s : St} {r : St × List Obs} (h : r ∈ stepLoopTimeout s) :
+    LoopFrame s r.1 ∧ ∀ y ∈ r.2, isCall y = false := by
+  unfold stepLoopTimeout at h
+  simp only [newOneshot] at h
+  repeat' (split at h)
+  all_goals simp only [List.mem_append, List.mem_singleton, List.mem_cons, List.not_mem_nil, or_false, false_or] at h
+  all_goals subst h
+  all_goals exact ⟨⟨_, _, _, _, _, _, _, _, _, _, rfl⟩, by simp [isCall]⟩
+
+/-! ### C02: the invariant -/
+
+def nbPc : NodePc → Bool
+  | .waitNb .. | .nbDone .. => true
+  | _ => false
+
+def Inv (s : St) (exp : Option Nat) : Prop :=
+  s.seq < 256 ∧ s.bdseq < 256 ∧
+    ((exp = none ∧ s.birthed = false ∧ nbPc s.node = false) ∨ exp = some ((s.seq + 1) % 256))
+
+def Good (exp : Option Nat) (s' : St) (o : List Obs) : Prop :=
+  ∃ exp', Inv s' exp' ∧ ∀ t, seqOk exp' t = true → seqOk exp (o ++ t) = true
+
+theorem stepNode_good {s : St} {dec exp} {r : St × List Obs} (hI : Inv s exp) (h : r ∈ stepNode s dec) :
+    Good exp r.1 r.2 := by
+  unfold stepNode at h
+  simp only [nodeBirthStart, handOver, callRes] at h
+  repeat' (split at h)
+  all_goals simp only [List.mem_append, List.mem_singleton, List.mem_cons, List.not_mem_nil, or_false, false_or] at h
+  all_goals subst h
+  all_goals obtain ⟨h1, h2, h3⟩ := hI
+  all_goals first
+    | exact ⟨exp, ⟨h1, h2, by simp_all [nbPc]⟩, fun t ht => by simp [seqOk, CK.bearsSeq, ht]⟩
+    | exact ⟨some 1, ⟨by simp, h2, by simp⟩, fun t ht => by simp [seqOk, CK.bearsSeq, ht]⟩
+    | exact ⟨exp, ⟨h1, by simp; omega, by simp_all [nbPc]; grind⟩, fun t ht => by simp [seqOk, CK.bearsSeq, ht]⟩
+
+theorem Minor_not_call {y : Obs} (h : Minor y = true) : isCall y = false := by
+  cases y <;> simp_all [Minor, isCall]
+
+theorem seqOk_skip1 {exp y t} (h : isCall y = false) : seqOk exp (y :: t) = seqOk exp t := by
+  cases y <;> simp_all [isCall, seqOk]
+
+theorem seqOk_skip {exp t} : ∀ {o : List Obs}, (∀ y ∈ o, isCall y = false) → seqOk exp (o ++ t) = seqOk exp t
+  | [], _ => rfl
+  | y :: o, h => by
+    rw [List.cons_append, seqOk_skip1 (h y (by simp))]
+    exact seqOk_skip (fun z hz => h z (by simp [hz]))
+
+theorem seqOk_skipM {exp t} {o : List Obs} (h : ∀ y ∈ o, Minor y = true) : seqOk exp (o ++ t) = seqOk exp t :=
+  seqOk_skip (fun y hy => Minor_not_call (h y hy))
+
+theorem pub_good {s s' : St} {o exp} (hI : Inv s exp) (hb : s'.bdseq = s.bdseq)
+    (hbi : s'.birthed = s.birthed) (hn : s'.node = s.node) (hp : PubEff s s' o) : Good exp s' o := by
+  obtain ⟨h1, h2, h3⟩ := hI
+  rcases hp with ⟨hq, ho⟩ | ⟨_, hbt, hq, pre, post, id, k, dv, it, dc, rfl, hk, hpre, hpost⟩
+  · exact ⟨exp, ⟨by simp [hq, h1], by simp [hb, h2], by simp [hq, hbi, hn, h3]⟩, fun t ht => by
+      simp [seqOk_skipM ho, ht]⟩
+  · have he : exp = some ((s.seq + 1) % 256) := by
+      rcases h3 with ⟨_, h, _⟩ | h
+      · simp [hbt] at h
+      · exact h
+    refine ⟨some ((s'.seq + 1) % 256), ⟨by simp [hq]; omega, by simp [hb, h2], .inr rfl⟩, fun t ht => ?_⟩
+    have hk' : (k == CK.nbirth) = false := by cases k <;> simp_all [CK.bearsSeq]
+    simp only [List.append_assoc, List.cons_append]
+    rw [seqOk_skipM hpre]
+    rw [hq] at ht
+    simp [seqOk, hk, hk', he, hq, seqOk_skipM hpost]
+    simpa using ht
+
+theorem mem_of_runAct_task {s : St} {t dec k} {r : St × List Obs}
+    (h : runAct s (.task t dec k) = some r) : r ∈ step s t dec := by
+  simp only [runAct] at h
+  exact List.mem_of_getElem? h
+
+theorem quiet_good {s s' : St} {o exp} (hI : Inv s exp) (hq : s'.seq = s.seq) (hb : s'.bdseq = s.bdseq)
+    (hbi : s'.birthed = s.birthed) (hn : s'.node = s.node) (ho : ∀ y ∈ o, isCall y = false) :
+    Good exp s' o := by
+  obtain ⟨h1, h2, h3⟩ := hI
+  exact ⟨exp, ⟨by simp [hq, h1], by simp [hb, h2], by simp [hq, hbi, hn, h3]⟩, fun t ht => by
+    simp [seqOk_skip ho, ht]⟩
+
+theorem step_good {s : St} {a exp} {r : St × List Obs} (hI : Inv s exp) (h : runAct s a = some r) :
+    Good exp r.1 r.2 := by
+  cases a with
+  | stim x =>
+    simp only [runAct, Option.some.injEq] at h
+    obtain ⟨hf, ho⟩ := applyStim_eff s x
+    rw [h] at hf ho
+    have ho' := fun y hy => Minor_not_call (ho y hy)
+    rcases hf with ⟨_, _, _, _, _, _, _, hf⟩ | ⟨u, _, hf⟩ <;>
+      exact quiet_good hI (by rw [hf]) (by rw [hf]) (by rw [hf]) (by rw [hf]) ho'
+  | task t dec k =>
+    have hm := mem_of_runAct_task h
+    cases t with
+    | loop =>
+      obtain ⟨⟨_, _, _, _, _, _, _, _, _, _, hf⟩, ho⟩ := stepLoop_frame hm
+      exact quiet_good hI (by rw [hf]) (by rw [hf]) (by rw [hf]) (by rw [hf]) ho
+    | loopTimeout =>
+      obtain ⟨⟨_, _, _, _, _, _, _, _, _, _, hf⟩, ho⟩ := stepLoopTimeout_frame hm
+      exact quiet_good hI (by rw [hf]) (by rw [hf]) (by rw [hf]) (by rw [hf]) ho
+    | node => exact stepNode_good hI hm
+    | dev d =>
+      obtain ⟨⟨_, _, _, hf⟩, hp⟩ := stepDev_eff hm
+      exact pub_good hI (by rw [hf]) (by rw [hf]) (by rw [hf]) hp
+    | user j =>
+      obtain ⟨u, _, p, hu⟩ := stepUser_eff hm
+      rcases hu with ⟨⟨_, _, hf⟩, hp, _⟩ | ⟨_, _, ⟨_, hf⟩, id, dc, ho⟩ | ⟨_, _, ho, hf | hf⟩ |
+        ⟨_, ⟨_, hf⟩, id, dc, j, rr, ho⟩
+      · exact pub_good hI (by rw [hf]) (by rw [hf]) (by rw [hf]) hp
+      · obtain ⟨h1, h2, h3⟩ := hI
+        exact ⟨exp, ⟨by simp [hf, h1], by simp [hf, h2], by simp [hf, h3]⟩, fun t ht => by
+          simp [ho, seqOk, CK.bearsSeq, ht]⟩
+      · exact quiet_good hI (by rw [hf]) (by rw [hf]) (by rw [hf]) (by rw [hf]) (by simp [ho])
+      · exact quiet_good hI (by rw [hf]) (by rw [hf]) (by rw [hf]) (by rw [hf]) (by simp [ho])
+      · obtain ⟨h1, h2, h3⟩ := hI
+        exact ⟨exp, ⟨by simp [hf, h1], by simp [hf, h2], by simp [hf, h3]⟩, fun t ht => by
+          simp [ho, seqOk, CK.bearsSeq, ht]⟩
+
+theorem runActs_good : ∀ (acts : List Act) (s : St) (exp : Option Nat) (s' : St) (tr : List Obs),
+    Inv s exp → runActs s acts = some (s', tr) → seqOk exp tr = true ∧ ∃ exp', Inv s' exp'
+  | [], s, exp, s', tr, hI, h => by
+    simp only [runActs, Option.some.injEq, Prod.mk.injEq] at h
+    obtain ⟨rfl, rfl⟩ := h
+    exact ⟨rfl, exp, hI⟩
+  | a :: as, s, exp, s', tr, hI, h => by
+    simp only [runActs] at h
+    split at h
+    · cases h
+    rename_i s1 o1 h1
+    split at h
+    · cases h
+    rename_i s2 o2 h2
+    simp only [Option.some.injEq, Prod.mk.injEq] at h
+    obtain ⟨rfl, rfl⟩ := h
+    obtain ⟨exp1, hI1, hs⟩ := step_good hI h1
+    obtain ⟨ht, hI2⟩ := runActs_good as s1 exp1 _ _ hI1 h2
+    exact ⟨hs _ ht, hI2⟩
+
+theorem inv_init (cd : Nat) : Inv (init cd) none := by
+  simp [Inv, init, nbPc]
 end Srad.Eon.P02
